@@ -86,7 +86,9 @@ def run_case(case):
             rot[0] += 1
             st = status_for(ncp, cls, rot[0])
             r = info["r"] if info else 0
-            ev({"a": "enqueue", "r": r, "x": dst, "tag": tag, "ans": cls})
+            # ta: the instant the NCP's answer reaches the host (a slow NCP answers `slow_send` ms after the command arrived) - a busy retry is
+            # spaced from that instant
+            ev({"a": "enqueue", "r": r, "x": dst, "tag": tag, "ans": cls, "ta": loop.ms + int(case.get("slow_send", 0))})
             # confirmations scripted relative to this (accepted) enqueue
             if info and cls == "ok":
                 for (delay, dd, dt, ok) in info["confs"]:
@@ -119,6 +121,9 @@ def run_case(case):
             if nm in ncp.cmds:
                 ncp.handlers[nm] = setup_cmd(nm)
         ncp.config[int(t.EzspConfigId.CONFIG_ADDRESS_TABLE_SIZE)] = 8
+        if case.get("slow_send"):
+            for nm in ("sendUnicast", "sendMulticast", "sendBroadcast"):
+                ncp.script[nm] = (lambda name, args, d=case["slow_send"] / 1000.0: ("late", d))
         if case.get("slow_setup"):
             # the NCP takes a while over every set-up command: a caller can be cancelled between two of them
             for nm in ("setSourceRoute", "getExtendedTimeout", "lookupNodeIdByEui64", "setExtendedTimeout", "getConfigurationValue",
@@ -255,6 +260,14 @@ def gen_cases(ctx):
                         dict(kind="unicast", dst=0x2222, ans=["ok"], confs=[(30, 0, 0, True)], sr=1),
                         dict(kind="unicast", dst=0x3333, ans=["ok"], confs=[(30, 0, 0, True)], ext=1)]
                 cases.append({"ver": ver, "rot": at + ver, "reqs": reqs, "stagger": 2, "cancel": [(0, at)], "late": 1, "slow_setup": 10, "in_addr_table": in_tab})
+        # an NCP that takes 800 ms over every send command: the spaced retries are spaced from its busy ANSWER
+        for ans in (["busy", "ok"], ["busy", "busy", "ok"], ["busy", "busy", "busy"]):
+            for variant in ({}, {"sr": 1}):
+                if ctx.quick and (len(ans) + ver + len(variant)) % 2:
+                    continue
+                reqs = [dict(kind="unicast", dst=0x1111, ans=list(ans), confs=[(50, 0, 0, True)], **variant),
+                        dict(kind="multicast", dst=0x0031, ans=["busy", "ok"], confs=[])]
+                cases.append({"ver": ver, "rot": ver, "reqs": reqs, "stagger": 100, "slow_send": 800})
         for _ in range(4 if ctx.quick else 600):
             n = rng.randint(2, 4)
             reqs = []
